@@ -271,8 +271,12 @@ fn multi_block(lead: usize, lens: &[(usize, usize)], gaps: &[Gap], pattern: usiz
 
 /// 2-3 banks at output byte positions 0x00, 0x40, 0x80 (size 0x30 each, logical addresses elsewhere).
 /// order 0: bank by bank; 1: reverse; 2: first halves in order, second halves in reverse order.
-fn bank_prog(lens: &[usize], fill: bool, order: usize, labels: bool, pattern: usize) -> Prog {
+fn bank_prog(lens: &[usize], fill: bool, order: usize, labels: bool, ram: bool, pattern: usize) -> Prog {
     let mut s = String::new();
+    if ram {
+        // a bank without an output window: its labels and reservations occupy no output position at all
+        s += "#bankdef ram\n{\n    #bits 8\n    #addr 0x8000\n    #size 0x10\n}\nr0:\n#res 2\nr1:\n";
+    }
     for (i, _) in lens.iter().enumerate() {
         s += &format!("#bankdef b{}\n{{\n    #bits 8\n    #addr 0x{:x}\n    #size 0x30\n    #outp 8 * 0x{:x}\n{}}}\n", i, 0x1000 * (i + 1), 0x40 * i, if fill { "    #fill\n" } else { "" });
     }
@@ -311,7 +315,10 @@ fn bank_prog(lens: &[usize], fill: bool, order: usize, labels: bool, pattern: us
             }
         }
     }
-    Prog { text: s, shape: "banks", pattern, blocks, exact_len: false, coords: json!({"bank_bytes": lens, "fill": fill, "order": order, "labels": labels, "pattern": pattern}) }
+    if ram {
+        s += "#bank ram\nr2:\n#res 1\n";
+    }
+    Prog { text: s, shape: "banks", pattern, blocks, exact_len: false, coords: json!({"bank_bytes": lens, "fill": fill, "order": order, "labels": labels, "bank_without_output": ram, "pattern": pattern}) }
 }
 
 fn empty_progs() -> Vec<Prog> {
@@ -801,8 +808,10 @@ fn bank_progs() -> Vec<Prog> {
             for fill in [false, true] {
                 for order in 0..3 {
                     for labels in [false, true] {
-                        v.push(bank_prog(&lens, fill, order, labels, idx % 3));
-                        idx += 1;
+                        for ram in [false, true] {
+                            v.push(bank_prog(&lens, fill, order, labels, ram, idx % 3));
+                            idx += 1;
+                        }
                     }
                 }
             }
